@@ -37,12 +37,12 @@ var pathDocs = []string{
 	`[{"k":"a","a":1},{"a":2},{"k":"a","a":3},{"k":null,"a":4},{"k":[1],"a":5},{"k":{"a":1},"a":6},{"k":"zz","a":7},{"k":true,"a":8},{"k":"k"}]`,
 	`{"x":[1,"p","q"],"y":[],"z":[2,"r","s"],"w":[[0],"t"],"v":[null,"u"],"u":[-1,"t","last"],"t":{"0":"k","k":"v"},"s":[7,"q"]}`,
 	`[[1,"a"],{"0":"b","b":[0,"c"]},[[],"d"],[2,"e","f"],[null,"g"],{"0":1,"1":"h"},[0.5,"i"],["1","j"]]`,
-	// member names at the edges of the identifier class the expression tokenizer reads in dot notation (underscore, digits after the
-	// first byte, both letter cases), referenced from filters, scripts and Eval
-	`{"users":[{"first_name":"ann","age":1,"_id":7,"x_":[1]},{"first_name":"bob","age":2,"A1":true,"aZ":"v","_id":8},{"age":3,"Zz":null,"first_name":"cy"}],"key_name":"age","a_b_c":{"d_e":1,"Z9_":2},"_":"u","__":[0]}`,
 	// member names that LOOK like selector syntax (a quoted name is a name, whatever it contains), next to arrays on which the same text
 	// unquoted would select something
 	`[{"(0)":"named","*":"star","?(@)":"filter","1:2":"slice","0,1":"union","(@.length-1)":"script","..":"dots","$":"root","@":"cur","(1)":[7,8]},["first","second","third"],{"(0)":[1,2],"-1":"neg","1":"one"},[["x","y"],["z"]]]`,
+	// member names at the edges of the identifier class the expression tokenizer reads in dot notation (underscore, digits after the
+	// first byte, both letter cases), referenced from filters, scripts and Eval
+	`{"users":[{"first_name":"ann","age":1,"_id":7,"x_":[1]},{"first_name":"bob","age":2,"A1":true,"aZ":"v","_id":8},{"age":3,"Zz":null,"first_name":"cy"}],"key_name":"age","a_b_c":{"d_e":1,"Z9_":2},"_":"u","__":[0]}`,
 }
 
 // collectNames lists the keys that occur in a reference tree.
